@@ -326,6 +326,25 @@ example : ∃ U B : List ℝ,
     rw [List.length_replicate, Nat.zero_add, ← unrollIdx_eq_rollIdx]
     exact hin i (by simpa using hi)
 
+/-- **convolution, last stage (`expand_conv`): the closure is the transpose of the forward map**, for every
+    batch size.  Forward: `expandConv` (per image, `[windows, filters]` to `[filters, rows, cols]`); closure:
+    `expandConvBack` on the operand's dimensions (what the stored closure of an `.expand` node runs).  Whenever
+    both return, over a commutative ring, `⟨expand(t), x⟩ = ⟨t, back(x)⟩`. -/
+theorem C02_expand_closure_is_transpose [AddLaws S] [MulLaws S] [CommLaws S] (t x out back : Tensor S)
+    (lead : List Nat) (nImg stride filters r c : Nat)
+    (hd : t.dims = lead ++ [stride, filters]) (hp : prod t.dims = nImg * (stride * filters)) (hwf : prod t.dims = t.vals.length)
+    (hx : x.vals.length = nImg * (stride * filters))
+    (hf : expandConv t r c = .ok out) (hb : expandConvBack x t.dims = .ok back) :
+    dot out.vals x.vals = dot t.vals back.vals :=
+  expandConv_closure_adjoint t x out back lead nImg stride filters r c hd hp hwf hx hf hb
+
+/-- non-vacuity: two images of 2 windows × 3 filters meet the hypotheses and both operations return -/
+example : ∃ out back : Tensor Nat,
+    expandConv (⟨[2, 2, 3], [1, 2, 3, 4, 5, 6, 7, 8, 9, 10, 11, 12]⟩ : Tensor Nat) 1 2 = .ok out ∧
+    expandConvBack (⟨[2, 3, 1, 2], [1, 0, 0, 1, 0, 0, 2, 0, 0, 0, 0, 3]⟩ : Tensor Nat) [2, 2, 3] = .ok back ∧
+    out.vals = [1, 4, 2, 5, 3, 6, 7, 10, 8, 11, 9, 12] := by
+  refine ⟨_, _, rfl, rfl, rfl⟩
+
 end Corgi
 
 #print axioms Corgi.exHeap_shapeOK
@@ -337,3 +356,4 @@ end Corgi
 #print axioms Corgi.C02_matmul2d_right_closure_is_transpose
 #print axioms Corgi.C02_unroll_closure_is_transpose
 #print axioms Corgi.C02_unroll_roll_same_index
+#print axioms Corgi.C02_expand_closure_is_transpose
